@@ -86,6 +86,51 @@ fn run_one(cmd: &str, input: &[u8]) -> String {
         Err(e) => format!("ERR {}", e),
       }
     }
+    "search" => {
+      // input: JSON {"schema": <schema>|null, "batches": [[doc,..],..], "deletes": [[id,..],..]?, "requests": [req,..]}
+      // every batch is added and committed separately (one segment each); deletes[i] are queued with batch i.
+      // output: JSON array, per request {"ok": SearchResult} | {"err": msg}
+      let v: serde_json::Value = match serde_json::from_slice(input) { Ok(v) => v, Err(e) => return format!("ERR bad input {}", e) };
+      let schema: searchlite_core::api::types::Schema = if v["schema"].is_null() {
+        searchlite_core::api::types::Schema::default_text_body()
+      } else {
+        match serde_json::from_value(v["schema"].clone()) { Ok(s) => s, Err(e) => return format!("ERR schema {}", e) }
+      };
+      let path = PathBuf::from("/mem/idx");
+      let opts = searchlite_core::api::types::IndexOptions {
+        path: path.clone(), create_if_missing: true, enable_positions: true, bm25_k1: 0.9, bm25_b: 0.4,
+        storage: searchlite_core::api::types::StorageType::InMemory,
+      };
+      let idx = match searchlite_core::api::Index::create(&path, schema, opts) { Ok(i) => i, Err(e) => return format!("ERR create {}", e) };
+      let empty = Vec::new();
+      let batches = v["batches"].as_array().unwrap_or(&empty);
+      for (bi, b) in batches.iter().enumerate() {
+        let mut w = match idx.writer() { Ok(w) => w, Err(e) => return format!("ERR writer {}", e) };
+        for d in b.as_array().unwrap_or(&empty) {
+          let doc: searchlite_core::api::types::Document = match serde_json::from_value(serde_json::json!({"fields": d})) { Ok(d) => d, Err(e) => return format!("ERR doc {}", e) };
+          if let Err(e) = w.add_document(&doc) { return format!("ERR add {}", e); }
+        }
+        if let Some(ds) = v["deletes"].get(bi).and_then(|x| x.as_array()) {
+          for id in ds { if let Err(e) = w.delete_document(id.as_str().unwrap_or("")) { return format!("ERR delete {}", e); } }
+        }
+        if let Err(e) = w.commit() { return format!("ERR commit {}", e); }
+      }
+      let reader = match idx.reader() { Ok(r) => r, Err(e) => return format!("ERR reader {}", e) };
+      let mut outs = Vec::new();
+      for r in v["requests"].as_array().unwrap_or(&empty) {
+        let req: searchlite_core::api::types::SearchRequest = match serde_json::from_value(r.clone()) { Ok(q) => q, Err(e) => { outs.push(serde_json::json!({"err": format!("request does not deserialize: {}", e)})); continue; } };
+        let res = catch_unwind(AssertUnwindSafe(|| reader.search(&req)));
+        match res {
+          Ok(Ok(sr)) => outs.push(serde_json::json!({"ok": sr})),
+          Ok(Err(e)) => outs.push(serde_json::json!({"err": e.to_string()})),
+          Err(p) => {
+            let msg = p.downcast_ref::<String>().cloned().or_else(|| p.downcast_ref::<&str>().map(|s| s.to_string())).unwrap_or_default();
+            outs.push(serde_json::json!({"panic": msg}))
+          }
+        }
+      }
+      format!("OK {}", serde_json::Value::Array(outs))
+    }
     _ => "ERR unknown command".to_string(),
   }
 }
